@@ -13,6 +13,11 @@ impl SSet {
     #[verifier::external_body]
     pub fn insert(&mut self, k: String) -> (r: bool)
         ensures final(self).set() == old(self).set().insert(k@), r == !old(self).set().contains(k@) { unimplemented!() }
+    // R55: the elements as a vector (some order, every element once); `extend` adds the elements of another set
+    #[verifier::external_body]
+    pub fn vx_into_vec(self) -> (r: Vec<String>) ensures forall|k: Seq<char>| self.set().contains(k) <==> exists|j: int| 0 <= j < r@.len() && #[trigger] r@[j]@ == k { unimplemented!() }
+    #[verifier::external_body]
+    pub fn extend(&mut self, other: SSet) ensures final(self).set() == old(self).set().union(other.set()) { unimplemented!() }
     #[verifier::external_body]
     pub fn contains(&self, k: &String) -> (r: bool) ensures r == self.set().contains(k@) { unimplemented!() }
 }
